@@ -12,6 +12,7 @@ namespace GuppyVerif.EmuConfig
 open Spec
 
 theorem WF_initial (n : Nat) : WF (initial n) := by
+  refine ⟨by simp [initial], ?_⟩
   intro c hc; simp [initial] at hc; subst hc; simp [initial, defaultInst]
 
 theorem LogOK_initial (n : Nat) : LogOK (initial n) := by
@@ -67,7 +68,8 @@ theorem run_reproducible (n : Nat) (ops : List Op) (s : State)
     behaviour of every instance is the fold of its derivation path from the base instance. -/
 theorem derive_is_pure (s s' : State) (i : Nat) (d : Deriv) (hw : WF s)
     (hs : step true s (.derive i d) = some s') :
-    view s' s.insts.length = ((view s i).bind fun a => applyD (fun k => s.heap[k]?) a d) ∧
+    view s' s.insts.length =
+      ((view s i).bind fun a => applyD (fun k => s.heap[k]?) (fun k => s.comps[k]?) a d) ∧
     originArgs s' s.insts.length = originArgs s i :=
   ⟨(derive_step_pure s s' i d hw hs).1, (derive_step_pure s s' i d hw hs).2.1⟩
 
@@ -81,7 +83,8 @@ theorem build_then_derive_pure (n₀ : Nat) (ops : List Op) (s s₁ s₂ s₃ sf
     (h₀ : runOps true (initial n₀) ops = some s) (hb : bview s b = some B)
     (h₁ : chainB s b bp = some (s₁, b')) (h₂ : runOps true s₁ junk = some s₂)
     (h₃ : step true s₂ (.build b' n) = some s₃) (h₄ : chainD s₃ s₂.insts.length ip = some (sf, j)) :
-    (∃ r, view sf j = some r ∧ foldD (fun k => sf.heap[k]?) (defaultArgs n) (ip.map (·.2)) = some r) ∧
+    (∃ r, view sf j = some r ∧
+      foldD (fun k => sf.heap[k]?) (fun k => sf.comps[k]?) (defaultArgs n) (ip.map (·.2)) = some r) ∧
     originArgs sf j = some (some ((bp.map (·.2)).foldl applyB B)) := by
   obtain ⟨hw, _⟩ := runOps_fixed ops (initial n₀) s (WF_initial n₀) h₀
   have hbl : b < s.builders.length := by
@@ -92,7 +95,7 @@ theorem build_then_derive_pure (n₀ : Nat) (ops : List Op) (s s₁ s₂ s₃ sf
   obtain ⟨hw₁, _, hb'l, hbv⟩ := chainB_pure bp s s₁ b b' B hw hbl hb h₁
   obtain ⟨hw₂, e₂⟩ := runOps_fixed junk s₁ s₂ hw₁ h₂
   obtain ⟨hw₃, e₃⟩ := step_fixed s₂ s₃ _ hw₂ h₃
-  obtain ⟨q1, q2, _⟩ := build_step_pure s₂ s₃ b' n h₃
+  obtain ⟨q1, q2, _⟩ := build_step_pure s₂ s₃ b' n hw₂ h₃
   have hnew : s₂.insts.length < s₃.insts.length := by
     have := h₃
     simp only [step] at this
@@ -132,5 +135,14 @@ def exChain : Option (Option (Option BuildArgs) × Option (Nat × Option Nat × 
 
 example : exChain =
     some (some (some ⟨some 5, none, false, [(1, 3)]⟩), some (7, some 3, some 3, 2)) := by rfl
+
+/-- a user error model (component 1, own seed 7) and runtime (component 2) shared by differently
+    seeded configurations: every run reports the components' own seeds unchanged -/
+example :
+    ((runOps true (initial 1) [.newComp (some 7), .newComp none, .derive 0 (.errorModel 1), .derive 1 (.runtime 2),
+        .derive 2 (.seed (some 1)), .run 3, .derive 2 (.seed (some 2)), .run 3, .run 4]).map fun s =>
+      s.log.map fun e => (e.1, e.2.seed, e.2.errorModel, e.2.errorModelSeed, e.2.runtime, e.2.runtimeSeed)) =
+    some [(3, some 1, 1, some 7, 2, none), (3, some 1, 1, some 7, 2, none), (4, some 2, 1, some 7, 2, none)] := by
+  rfl
 
 end GuppyVerif.EmuConfig
